@@ -423,3 +423,230 @@ pub fn c17_case(data: &[u8]) -> c17::RandCase {
     });
     c17::RandCase { k, ops }
 }
+
+// ---- further parts ------------------------------------------------------------------------------
+
+use crate::props::{c01, c02, c04, c07, c10, c13, c15, c19, c20};
+
+pub fn c01_case(data: &[u8]) -> c01::Case {
+    let mut d = D::new(data);
+    let reuse = reuse_cfg(&mut d);
+    let items = d.vec(1, 6, |d| {
+        let len = match d.pick(7) {
+            0 => d.range(0, 1),
+            1..=3 => d.range(2, 1500),
+            _ => d.range(4081, 4096),
+        };
+        let buf = match d.pick(11) {
+            0..=3 => BufSpec::FitPlus(0),
+            4 | 5 => BufSpec::FitPlus(d.irange(1, 8)),
+            6 => BufSpec::FitPlus(d.irange(-6, -1)),
+            7 | 8 => BufSpec::Abs(d.range(4098, 70000)),
+            _ => BufSpec::Abs(d.range(0, 4200)),
+        };
+        c01::Item {
+            pdu: Pdu { len, seed: d.u32() | 4 },
+            lab: lab(d, false, true),
+            ptype: ptype_user(d),
+            frag_id: d.u8(),
+            buf,
+            storage_extra: match d.pick(7) { 0..=2 => 0, 3 | 4 => 1, _ => d.range(2, 70000) },
+            set_reuse: if d.pick(7) == 0 { Some(reuse_cfg(d)) } else { None },
+        }
+    });
+    c01::Case { reuse, items }
+}
+
+pub fn c02_case(data: &[u8]) -> c02::Case {
+    let mut d = D::new(data);
+    let lab_ = lab(&mut d, false, true);
+    let len = d.len_class(65533 - lab_.len() as u32, &[4095, 4097, 4110, 65527, 65533]).max(1);
+    let schedule = d.vec(1, 40, |d| match d.pick(15) {
+        0 | 1 => BufSpec::Abs(d.range(0, 12)),
+        2..=4 => BufSpec::Abs(d.range(13, 64)),
+        5..=7 => BufSpec::Abs(d.range(65, 4097)),
+        8 | 9 => BufSpec::Abs(d.range(4098, 70000)),
+        10 | 11 => BufSpec::RemPlus(d.irange(-4, 8)),
+        12 | 13 => BufSpec::FitPlus(d.irange(-8, 8)),
+        _ => BufSpec::HdrPlus(d.irange(-4, 40)),
+    });
+    c02::Case {
+        reuse: reuse_cfg(&mut d),
+        prime: d.bool() || lab_ == Lab::ReUse,
+        pdu: Pdu { len, seed: d.u32() | 4 },
+        lab: lab_,
+        ptype: ptype_user(&mut d),
+        frag_id: d.u8(),
+        schedule,
+        tail_base: d.range(13, 4200) as u16,
+        tail_span: d.range(1, 4200) as u16,
+        storage_extra: match d.pick(5) { 0..=2 => 0, 3 => 1, _ => d.range(2, 69999) },
+    }
+}
+
+pub fn c04a_case(data: &[u8]) -> c04::CaseA {
+    let mut d = D::new(data);
+    let ops = d.vec(1, 60, |d| match d.pick(20) {
+        0..=11 => {
+            let outcome = match d.pick(13) {
+                0..=4 => c04::Outcome::Complete,
+                5..=7 => c04::Outcome::Fragment,
+                8 | 9 => c04::Outcome::FailSmallBuffer,
+                10 => c04::Outcome::FailPduTooLong,
+                11 => c04::Outcome::FailBadPtype,
+                _ => c04::Outcome::FailZeroLabel,
+            };
+            c04::Op::Send { lab: [0u8, 0, 1, 1, 2, 2, 0, 1, 3, 4, 5, 5, 6, 6][d.pick(14)], outcome, ext: d.pick(5) == 0, frag_id: d.range(0, 3) as u8, len: d.range(0, 59) as u8 }
+        }
+        12..=15 => c04::Op::Cont { k: d.u16(), n: d.range(0, 39) as u8 },
+        16 => c04::Op::ResetBoth,
+        17 => c04::Op::Disable,
+        18 => c04::Op::Enable,
+        _ => c04::Op::Max(if d.bool() { d.range(1, 3) as u8 } else { d.u8() }),
+    });
+    c04::CaseA { ops }
+}
+
+pub fn c04b_case(data: &[u8]) -> c04::CaseB {
+    let mut d = D::new(data);
+    let ops = d.vec(1, 50, |d| match d.pick(19) {
+        0..=13 => {
+            let l = match d.pick(9) {
+                0..=2 => [Lab::Six(ALPHA6[0]), Lab::Six(ALPHA6[1]), Lab::Three(ALPHA3[0]), Lab::Three(ALPHA3[1]), Lab::Six(ALPHA6[2])][d.pick(5)],
+                3 => Lab::Broadcast,
+                4..=7 => Lab::ReUse,
+                _ => Lab::Six([0; 6]),
+            };
+            c04::RxB::Start { kind: d.range(0, 1) as u8, lab: l, ext: match d.pick(7) { 0..=4 => 0, 5 => 1, _ => 2 }, len: d.range(0, 79) as u8, id: d.range(0, 3) as u8, muts: if d.pick(7) == 0 { d.vec(1, 2, mutation) } else { vec![] } }
+        }
+        14 => c04::RxB::Reset,
+        15 => c04::RxB::Drain,
+        16 | 17 => c04::RxB::Provision,
+        _ => c04::RxB::Raw(d.bytes(12)),
+    });
+    c04::CaseB { ops }
+}
+
+pub fn c07_case(data: &[u8]) -> c07::Scenario {
+    let mut d = D::new(data);
+    let k = d.range(2, 8) as u8;
+    let n = (d.range(2, 4) as usize).min(k as usize);
+    let mut residues: Vec<u8> = (0..k).collect();
+    let mut trains = vec![];
+    for _ in 0..n {
+        let r = residues.remove(d.pick(residues.len()));
+        let mult = d.range(0, (255 - r as u32) / k as u32);
+        let len = d.range(8, 6000);
+        let ncuts = d.range(1, 4) as usize;
+        let maxcut = (len as usize / (ncuts + 1)).max(1) as u32;
+        trains.push(c07::TrainSpec { id: (r as u32 + k as u32 * mult) as u8, lab: lab(&mut d, false, false), ptype: ptype_user(&mut d), pdu: Pdu { len, seed: d.u32() | 4 }, cuts: (0..ncuts).map(|_| d.range(1, maxcut.min(1500)) as u16).collect() });
+    }
+    let total: usize = trains.iter().map(|t| t.cuts.len() + 1).sum();
+    let merge = (0..total + 4).map(|_| d.range(0, n as u32 - 1) as u8).collect();
+    let strays = d.vec(0, 6, |d| {
+        let t = d.range(0, 3) as u8;
+        let s = match d.pick(12) {
+            0..=2 => c07::Stray::InterAlias(t),
+            3..=5 => c07::Stray::EndAlias(t),
+            6 => c07::Stray::InterUnknown,
+            7 => c07::Stray::EndUnknown,
+            8 => c07::Stray::CompleteBroadcast,
+            9 => c07::Stray::CompleteLabel,
+            10 => c07::Stray::RestartSame(t),
+            _ => c07::Stray::ClaimAlias(t),
+        };
+        (d.u16(), s)
+    });
+    c07::Scenario { k, trains, merge, strays, reuse_mask: d.u8() }
+}
+
+pub fn c10_case(data: &[u8]) -> c10::Case {
+    let mut d = D::new(data);
+    let reuse = reuse_cfg(&mut d);
+    let storage = if d.pick(4) == 0 { d.range(0, 99) as u16 } else { 400 };
+    let free_bufs = if d.pick(5) == 0 { d.range(0, 3) as u8 } else { 4 };
+    let know_mand = d.pick(4) != 0;
+    let items = d.vec(1, 16, |d| {
+        let brk = d.pick(6) == 0;
+        let len = |d: &mut D| match d.pick(8) { 0 | 1 => d.range(0, 2), 2..=5 => d.range(3, 59), _ => d.range(60, 399) } as u16;
+        let it = match d.pick(14) {
+            0..=4 => c10::Item::Complete { lab: lab(d, false, true), len: len(d), kind: [0u8, 0, 0, 0, 1, 1, 2, 2, 3, 4][d.pick(10)] },
+            5..=7 => c10::Item::Start { id: d.range(0, 5) as u8, lab: lab(d, false, true), len: d.range(4, 399) as u16, first_payload: d.range(0, 39) as u8, ext: d.bool() },
+            8..=12 => c10::Item::Cont { k: d.u16(), n: if d.pick(3) == 0 { d.range(30, 499) as u16 } else { d.range(0, 29) as u16 }, corrupt: d.pick(7) == 0 },
+            _ => c10::Item::Orphan { id: d.range(0, 5) as u8, end: d.bool() },
+        };
+        (brk, it)
+    });
+    let pad = d.range(0, 39) as u8;
+    let garbage = if d.pick(5) == 0 { Some(d.vec(1, 39, |d| d.u8())) } else { None };
+    c10::Case { reuse, storage, free_bufs, know_mand, items, pad, garbage }
+}
+
+pub fn c13_case(data: &[u8]) -> c13::Case {
+    let mut d = D::new(data);
+    let (user_ptype, exts) = if d.pick(5) < 3 {
+        (Some(ptype_user(&mut d)), d.vec(1, 4, ext_nonfinal))
+    } else {
+        let mut v = d.vec(0, 2, ext_nonfinal);
+        v.push(ext_final(&mut d));
+        (None, v)
+    };
+    let first = match d.pick(9) {
+        0..=3 => BufSpec::HdrPlus(d.irange(-4, 60)),
+        4..=6 => BufSpec::FitPlus(d.irange(-6, 4)),
+        7 => BufSpec::Abs(d.range(4098, 20000)),
+        _ => BufSpec::Abs(d.range(13, 4097)),
+    };
+    let len = match d.pick(8) { 0..=2 => d.range(0, 40), 3..=5 => d.range(40, 600), 6 => d.range(600, 5000), _ => d.range(4050, 4100) };
+    c13::Case {
+        lab: lab(&mut d, false, true),
+        user_ptype,
+        pdu: Pdu { len, seed: d.u32() | 4 },
+        exts,
+        frag_id: d.u8(),
+        first,
+        cont_buf: d.range(7, 600) as u16,
+        storage_extra: if d.pick(3) == 0 { d.range(1, 499) as u16 } else { 0 },
+        mgr_mask: match d.pick(6) { 0..=2 => u32::MAX, 3 | 4 => d.u32(), _ => 0 },
+    }
+}
+
+pub fn c15_case(data: &[u8]) -> c15::RandCase {
+    let mut d = D::new(data);
+    let labs = [c15::A6, c15::A6, c15::A6, c15::B6, c15::B6, c15::A3, c15::A3, c15::B3, Lab::Broadcast, Lab::ReUse];
+    let ops = d.vec(1, 80, |d| match d.pick(19) {
+        0..=7 => c15::Op::Send { lab: labs[d.pick(10)], mode: d.range(0, 2) as u8 },
+        8..=10 => c15::Op::Burst { lab: labs[d.pick(10)], n: if d.pick(3) == 0 { d.range(200, 299) as u16 } else { d.range(2, 7) as u16 } },
+        11..=13 => c15::Op::Fail { lab: labs[d.pick(10)] },
+        14 => c15::Op::Reset,
+        15 => c15::Op::Disable,
+        16 => c15::Op::Enable,
+        _ => c15::Op::Max(match d.pick(4) { 0 | 1 => d.range(0, 3) as u8, 2 => d.u8(), _ => d.range(250, 255) as u8 }),
+    });
+    c15::RandCase { ops }
+}
+
+pub fn c19_case(data: &[u8]) -> c19::Case {
+    let mut d = D::new(data);
+    let reuse = reuse_cfg(&mut d);
+    let sends = d.vec(1, 3, |d| {
+        let mut s = send_one(d, true, false);
+        s.tail_base = s.tail_base.max(7);
+        s.conts.truncate(6);
+        s
+    });
+    let tail = d.vec(1, 64, |d| d.u8());
+    c19::Case { send: sender::SendCase { reuse, sends }, tail }
+}
+
+pub fn c20_case(data: &[u8]) -> c20::Case {
+    let mut d = D::new(data);
+    let pay = |d: &mut D, lo: u32| Pdu { len: match d.pick(8) { 0..=2 => d.range(lo, 40), 3..=5 => d.range(40, 1000), _ => d.range(1000, 4000) }, seed: if d.pick(8) == 0 { d.range(0, 2) } else { d.u32() | 4 } };
+    let desc = match d.pick(4) {
+        0 => c20::Desc::Complete { lab: lab(&mut d, false, true), ptype: ptype_user(&mut d), payload: pay(&mut d, 0) },
+        1 => c20::Desc::First { lab: lab(&mut d, false, true), frag_id: d.u8(), ptype: ptype_user(&mut d), payload: pay(&mut d, 0), extra: match d.pick(3) { 0 => 4, 1 => d.range(4, 1999) as u16, _ => d.range(2000, 59999) as u16 } },
+        2 => c20::Desc::Inter { frag_id: d.u8(), payload: pay(&mut d, 1), pos: d.range(0, 2999) as u16, extra: d.range(1, 2999) as u16 },
+        _ => c20::Desc::End { frag_id: d.u8(), payload: pay(&mut d, 0), pos: d.range(1, 2999) as u16, crc: d.u32() },
+    };
+    c20::Case { d: desc, slack: d.range(0, 19) as u8 }
+}
